@@ -169,4 +169,31 @@ theorem aerase_length_lt_of_mem {α : Type} (k : Nat) (l : List (Nat × α))
       simp only [List.length_cons]
       omega
 
+theorem mem_akeys_aerase {α : Type} (k j : Nat) (l : List (Nat × α)) (h : j ∈ akeys (aerase k l)) :
+    j ∈ akeys l ∧ j ≠ k := by
+  rw [akeys_aerase] at h
+  simp only [List.mem_filter, decide_eq_true_eq] at h
+  exact h
+
+theorem mem_akeys_aerase_of {α : Type} (k j : Nat) (l : List (Nat × α)) (h : j ∈ akeys l)
+    (hne : j ≠ k) : j ∈ akeys (aerase k l) := by
+  rw [akeys_aerase]
+  simp only [List.mem_filter, decide_eq_true_eq]
+  exact ⟨h, hne⟩
+
+theorem mem_akeys_aset {α : Type} (k j : Nat) (v : α) (l : List (Nat × α)) :
+    j ∈ akeys (aset k v l) ↔ j = k ∨ j ∈ akeys l := by
+  unfold aset
+  simp only [akeys, List.map_cons, List.mem_cons]
+  constructor
+  · rintro (h | h)
+    · exact Or.inl h
+    · exact Or.inr (mem_akeys_aerase k j l h).1
+  · rintro (h | h)
+    · exact Or.inl h
+    · by_cases hjk : j = k
+      · exact Or.inl hjk
+      · exact Or.inr (mem_akeys_aerase_of k j l h hjk)
+
+
 end KyroModel
